@@ -23,6 +23,7 @@ type SSHIn struct {
 	Chan  string   `json:"chan,omitempty"`
 	Extra hx.B     `json:"extra,omitempty"`
 	Reqs  []SSHReq `json:"reqs,omitempty"`
+	Data  []hx.B   `json:"data,omitempty"` // written to the channel after the requests (shell input)
 }
 
 func playSSH(cc net.Conn, in *SSHIn) {
@@ -58,6 +59,12 @@ func playSSH(cc net.Conn, in *SSHIn) {
 		go ssh.DiscardRequests(creqs)
 		for _, r := range in.Reqs {
 			if _, err := ch.SendRequest(r.Type, false, r.Payload); err != nil {
+				return
+			}
+		}
+		for _, d := range in.Data {
+			time.Sleep(20 * time.Millisecond)
+			if _, err := ch.Write(d); err != nil {
 				return
 			}
 		}
